@@ -1,5 +1,6 @@
 import DdsModel.Eval
 import DdsProofs.SigInj
+import DdsProofs.History
 /-!
 # C09 — dds.load always sees the latest kept value and invalidates its readers
 
@@ -13,6 +14,16 @@ Stage 1 (DESIGN §5 C09), for every world, store and request:
   resolved signature is what enters the function's own signature (`dep_<p>`), so a reader's signature is a
   function of the producer's.
 (`reader_sig_tracks_producer` as an *iff* needs the injectivity of signature composition: stage 2.)
+
+Stage 3, over histories (`DdsProofs/History.lean`; `HState` = the store and the value plain execution has kept at every path):
+* `load_sees_latest_kept`: after any history from an empty store, every committed path resolves to a blob that is exactly
+  the value most recently kept at the path by plain execution of a completed evaluation — what a later `dds.load` reads;
+* `reader_returns_plain_value`: an evaluation that loads paths committed by earlier evaluations — wherever in the call tree
+  the loads appear — returns what plain execution returns when `load` gives the most recently kept value: a reader is
+  served from the store only when that is still the right value, and re-run otherwise.
+PARTIAL: the two theorems assume `ExternalLoads` (no evaluation of the history loads a path that it produces itself) and
+`World.keepsPlain`; a load of a path kept earlier *in the same evaluation* is decided by the three-way execution of the check
+(and by `load_uses_own_key`), not by a theorem.
 -/
 namespace Dds.C09
 open Dds
@@ -61,5 +72,25 @@ theorem reader_sig_determines_loaded (b b' : Option Sg) (a a' : ArgCtx) (deps de
     (h : buildReturnSig b a deps subs ed ev = buildReturnSig b' a' deps' subs' ed' ev') :
     ∀ p s, (p, s) ∈ deps ↔ (p, s) ∈ deps' :=
   (buildReturnSig_inj b b' a a' deps deps' subs subs' ed ed' ev ev' pa pa' ha ha' h).2.2.1
+
+/-- after any history, a committed path resolves to the value most recently kept there by plain execution -/
+theorem load_sees_latest_kept (U : Universe) (m x : Nat) (noop : Bool) (hist : List HStep)
+    (hok : histOK U m x { store := { noop := noop }, kept := [] } hist) (p : String) (k : Sg)
+    (hp : aget (runHist m { store := { noop := noop }, kept := [] } hist).store.paths p = some k) :
+    ∃ v, sgGet (runHist m { store := { noop := noop }, kept := [] } hist).store.blobs k = some v ∧
+      aget (runHist m { store := { noop := noop }, kept := [] } hist).kept p = some v :=
+  (hinv_history U m x hist _ (hinv_empty U m x noop) hok).kept p k hp
+
+/-- an evaluation with loads (of paths committed earlier) returns what plain execution returns when every `load` gives
+the value most recently kept at its path -/
+theorem reader_returns_plain_value (U : Universe) (m x : Nat) (noop : Bool) (hist : List HStep)
+    (hok : histOK U m x { store := { noop := noop }, kept := [] } hist)
+    (W : World) (rq : Request) (E : EvalCtx U x W) (hrq : U.request rq)
+    {fn : Fn} {env : Env} {fis : FIS} {paths : List (String × Sg)}
+    (ha : analysisPhase m W (runHist m { store := { noop := noop }, kept := [] } hist).store rq = .ok (fn, env, fis, paths))
+    (hext : ∀ p ∈ fis.allLoads, External paths p) (hs : Stage.eval ∈ rq.stages) :
+    (evalStep m W (runHist m { store := { noop := noop }, kept := [] } hist).store rq).value =
+      ((plainFn W W.fuel { kept := (runHist m { store := { noop := noop }, kept := [] } hist).kept } fn env).1).map some :=
+  history_value U m x noop hist hok W rq E hrq ha hext hs
 
 end Dds.C09
